@@ -177,6 +177,68 @@ def iteration_skips(func, fragment, allowed_skips, bypass=()):
     return bad
 
 
+def moved_to_helper(idx, cls, func, fragment):
+    """is the fragment found in a method of the same class that `func`
+    calls directly (a refactoring rather than a deletion)?"""
+    for call in ast.walk(func):
+        if isinstance(call, ast.Call) and isinstance(call.func,
+                                                     ast.Attribute) and \
+                isinstance(call.func.value, ast.Name) and \
+                call.func.value.id in ("self", "cls"):
+            res = idx.find_method(cls, call.func.attr)
+            if res is None or res[1] is func:
+                continue
+            txt = " ".join(ast.unparse(res[1]).split())
+            frags = fragment if isinstance(fragment, tuple) else (fragment,)
+            if any(f in txt for f in frags):
+                return True
+    return False
+
+
+def option_defaults(func, opt):
+    """defaults given to options.get('<opt>', default) in func"""
+    out = []
+    for call in ast.walk(func):
+        if isinstance(call, ast.Call) and isinstance(call.func,
+                                                     ast.Attribute) and \
+                call.func.attr == "get" and call.args and \
+                isinstance(call.args[0], ast.Constant) and \
+                call.args[0].value == opt:
+            if len(call.args) > 1:
+                dflt = call.args[1]
+                if isinstance(dflt, ast.Constant):
+                    out.append(dflt.value)
+                else:
+                    out.append(ast.unparse(dflt))
+            else:
+                out.append(None)
+    return out
+
+
+def reachable_refusals(func):
+    """raise statements of an error that can be reached from the entry
+    (constant-false tests are not followed)"""
+    cfg = CFG(func)
+    seen = {cfg.entry.id}
+    todo = [cfg.entry]
+    count = 0
+    while todo:
+        node = todo.pop()
+        for nxt, label in node.succ:
+            if node.kind == "test" and isinstance(node.ast, ast.If) and \
+                    isinstance(node.ast.test, ast.Constant):
+                if label != ("true" if node.ast.test.value else "false"):
+                    continue
+            if nxt.id in seen:
+                continue
+            seen.add(nxt.id)
+            todo.append(nxt)
+            if isinstance(nxt.ast, ast.Raise) and nxt.ast.exc is not None \
+                    and "Error" in ast.unparse(nxt.ast.exc):
+                count += 1
+    return count
+
+
 def check_table(idx, run, rule, table):
     """table: {(Class, method): {"consults": [(fragment, why, bypass)],
     "raises": floor}}"""
@@ -190,10 +252,12 @@ def check_table(idx, run, rule, table):
             res = skips_consult(func, fragment, bypass,
                                 spec.get("early_ok", ()))
             if res == "absent":
-                raise AnalysisError(
-                    f"{cons}: the consultation '{fragment}' no longer "
-                    f"occurs (refactored?) - the obligation table needs "
-                    f"review")
+                if moved_to_helper(idx, cls, func, fragment):
+                    raise AnalysisError(
+                        f"{cons}: the consultation '{fragment}' moved into "
+                        f"a helper method - the obligation table needs "
+                        f"review")
+                res = "every path: the call is gone"
             run.check(
                 rule, res is None, cons, f"consults {fragment}",
                 f"{cons} can accept a target without {why} "
@@ -203,14 +267,30 @@ def check_table(idx, run, rule, table):
                 sample={"rule": rule, "method": cons,
                         "consult": fragment, "bypass": list(bypass),
                         "ok": res is None})
+        for entry in list(spec.get("consults", [])) + [
+                (e[0], e[1], e[3]) for e in spec.get("per_iteration", [])
+                if len(e) > 3]:
+            for item in (entry[2] if len(entry) > 2 else ()):
+                opt, _, pol = item.partition(":")
+                want = pol == "false"
+                for got in option_defaults(func, opt):
+                    run.check(
+                        rule, bool(got) == want, cons,
+                        f"default of option '{opt}'",
+                        f"{cons}: the option '{opt}' that switches off "
+                        f"'{entry[0]}' now defaults to {got!r}: the check "
+                        f"is skipped unless the caller asks for it", where)
         for entry in spec.get("per_iteration", []):
             fragment, why, skips = entry[0], entry[1], entry[2]
             bypass = entry[3] if len(entry) > 3 else ()
             bad = iteration_skips(func, fragment, skips, bypass)
             if bad == ["absent"]:
-                raise AnalysisError(
-                    f"{cons}: the consultation '{fragment}' no longer "
-                    f"occurs - the obligation table needs review")
+                if moved_to_helper(idx, cls, func, fragment):
+                    raise AnalysisError(
+                        f"{cons}: the consultation '{fragment}' moved into "
+                        f"a helper method - the obligation table needs "
+                        f"review")
+                bad = [["the call is gone"]]
             run.check(
                 rule, not bad, cons, f"every element reaches {fragment}",
                 f"{cons}: an iteration can finish without {why} "
@@ -221,9 +301,7 @@ def check_table(idx, run, rule, table):
                                "ok": not bad})
         floor = spec.get("raises")
         if floor is not None:
-            nraise = sum(1 for s in ast.walk(func)
-                         if isinstance(s, ast.Raise) and s.exc is not None
-                         and "Error" in ast.unparse(s.exc))
+            nraise = reachable_refusals(func)
             run.check(
                 rule, nraise >= floor, cons, "number of refusals",
                 f"{cons} has {nraise} refusal statements, the reviewed "
